@@ -201,7 +201,7 @@ fn visit_tcp(
         return Err(HuginnNetTcpError::InvalidTcpFlags(flags));
     }
 
-    if (flags & (ECE | CWR)) != 0 {
+    if (flags & (ECE | CWR)) != 0 && !quirks.contains(&Quirk::Ecn) {
         quirks.push(Quirk::Ecn);
     }
     if tcp.get_sequence() == 0 {
